@@ -458,6 +458,17 @@ Outcome WSession::call(const Op &op) {
     if (was_latched && cap) before.assign(dblk.p, dblk.p + cap);
     Block arg;
     auto mkarg = [&](const Bytes &b, bool nul) { arg = block_alloc(b.size() + (nul ? 1 : 0), 0); if (!b.empty()) memcpy(arg.p, b.data(), b.size()); if (nul) arg.p[b.size()] = 0; };
+    // op.c > 0: the value was prepared inside the destination buffer itself, `gap` bytes behind the place where its own
+    // payload will go (in-place re-encoding; the writer moves with memmove). Only when it fits into the caller's buffer.
+    auto alias_src = [&](const Bytes &b, size_t hdr) -> const uint8_t * {
+        if (op.c <= 0 || !dblk.p) return nullptr;
+        size_t at = counter() + hdr + (size_t)(op.c - 1);
+        if (counter() > cap || at > cap || b.size() > cap - at) return nullptr;
+        if (!b.empty()) { memcpy(dblk.p + at, b.data(), b.size()); memcpy(shadow.data() + at, b.data(), b.size()); if (!before.empty()) memcpy(before.data() + at, b.data(), b.size()); }
+        bump(cnt, "probe.write_source_inside_destination");
+        return dblk.p + at;
+    };
+    auto hdr_of = [](size_t len) -> size_t { return len <= 127 ? 2 : len <= 32767 ? 3 : 5; };
     auto cstr = [](Bytes b) { size_t z = 0; while (z < b.size() && b[z]) z++; b.resize(z); return b; };
     switch (op.code) {
         case W_INIT: {
@@ -467,6 +478,7 @@ Outcome WSession::call(const Op &op) {
             }
             cap = (size_t)op.a;
             block_free(dblk); dblk = block_alloc(cap, 0); if (cap) memset(dblk.p, FILL, cap);
+            shadow.assign(cap, (uint8_t)0xA5);
             LIB(o.ret = binson_writer_init(w, dblk.p, cap)); inited = true; break;
         }
         case W_RESET: LIB(o.ret = binson_writer_reset(w)); break;
@@ -493,9 +505,9 @@ Outcome WSession::call(const Op &op) {
             LIB(o.ret = binson_parser_to_writer(v == 4 ? nullptr : &ap, w));
             break;
         }
-        case W_STRING_LEN: mkarg(op.b, false); LIB(o.ret = binson_write_string_with_len(w, (const char *)arg.p, op.b.size())); break;
-        case W_BYTES: mkarg(op.b, false); LIB(o.ret = binson_write_bytes(w, arg.p, op.b.size())); break;
-        case W_RAW: mkarg(op.b, false); LIB(o.ret = binson_write_raw(w, arg.p, op.b.size())); break;
+        case W_STRING_LEN: { const uint8_t *src = alias_src(op.b, hdr_of(op.b.size())); if (!src) { mkarg(op.b, false); src = arg.p; } LIB(o.ret = binson_write_string_with_len(w, (const char *)src, op.b.size())); break; }
+        case W_BYTES: { const uint8_t *src = alias_src(op.b, hdr_of(op.b.size())); if (!src) { mkarg(op.b, false); src = arg.p; } LIB(o.ret = binson_write_bytes(w, src, op.b.size())); break; }
+        case W_RAW: { const uint8_t *src = alias_src(op.b, 0); if (!src) { mkarg(op.b, false); src = arg.p; } LIB(o.ret = binson_write_raw(w, src, op.b.size())); break; }
         case W_VERIFY:
             if (err() != 0 || counter() > cap) { o.skipped = true; break; }
             LIB(o.ret = binson_writer_verify(w)); break;
